@@ -29,7 +29,8 @@ def gen_assignments(types_t, types_s):
 
 
 REG_TARGETS = ["RxV", "RyV", "RsV", "RdV", "RxxV", "RttV", "PxV", "PvV", "CxV", "MuV", "R31", "R0", "P0", "P3", "C4", "R1:0",
-               "HEX_REG_ALIAS_SP", "HEX_REG_ALIAS_LR", "HEX_REG_ALIAS_USR", "HEX_REG_ALIAS_LC0", "HEX_REG_ALIAS_P3_0"]
+               "HEX_REG_ALIAS_SP", "HEX_REG_ALIAS_LR", "HEX_REG_ALIAS_USR", "HEX_REG_ALIAS_LC0", "HEX_REG_ALIAS_P3_0",
+               "HEX_REG_ALIAS_UTIMER", "HEX_REG_ALIAS_PKTCOUNT", "HEX_REG_ALIAS_UPCYCLE"]  # (the last three are 64 bit wide)
 REG_UPDATES = ["%s++;", "%s--;", "%s = %s + 1;", "%s += 2;", "%s = a;"]
 REG_CONTEXTS = [
     ("alone", "%(u)s"), ("read-before", "r = %(t)s + a; %(u)s"), ("read-after", "%(u)s r = %(t)s + a;"), ("both", "r = %(t)s; %(u)s q = %(t)s;"),
